@@ -1164,7 +1164,11 @@ fn run_file(ls: &mut Linters, it: &Item, out: &mut Buf) {
     if !ok_tree {
         return;
     }
-    // ---- group tok: the premise of C04_templated (tiling + tree_ok) evaluated in Coq on every templated final tree
+    if run.patches.is_empty() && fnv(&it.sql) % 4 != 0 {
+        out.count("tree_case_sampled_out (no patch: 1 in 4 kept)", 1);
+        return;
+    }
+    // ---- group tok: the premise of C04_templated (tiling + tree_ok) evaluated in Coq on every templated final tree with a patch and 1 in 4 of those without
     if templated && src.len() <= TREE_CASE_MAX {
         let raws: Vec<(usize, bool)> = tf.verif_raw_sliced_idx().into_iter().map(|(i, t, _)| (i, t == "literal")).collect();
         let sliced = g_list(tf.sliced_file.iter().map(|t| {
@@ -1183,11 +1187,8 @@ fn run_file(ls: &mut Linters, it: &Item, out: &mut Buf) {
             tree_term.clone(),
         ]);
         let sample = json!({"input":input,"n_nodes":nodes,"observed":obs_code,"patches":run.patches.iter().map(|(s,e,r)| json!([s,e,trunc(r,80)])).collect::<Vec<_>>(),"fixed":trunc(&run.fixed,200)});
-        out.case("tok", it.cls, !run.patches.is_empty(), args, g_n(obs_code), sample);
-    }
-    if run.patches.is_empty() && fnv(&it.sql) % 4 != 0 {
-        out.count("tree_case_sampled_out (no patch: 1 in 4 kept)", 1);
-        return;
+        // not a correspondence case: bin/propcfg/c04.py (post) evaluates Corr.C04.tok_stat on it and counts
+        out.lines.push(json!({"t":"tok","cls":it.cls,"nontrivial":!run.patches.is_empty(),"args":args,"obs":obs_code,"sample":sample}));
     }
     if src.len() > TREE_CASE_MAX {
         out.count("tree_case_skipped_large", 1);
